@@ -118,6 +118,14 @@ pub static STOP: AtomicBool = AtomicBool::new(false);
 
 /// Run `jobs` jobs on worker threads (1 GiB lazily-mapped stacks); results in job order.
 /// Each worker calls `f(job_index)`. Library values are !Send, so everything is built inside `f`.
+/// A thread of the harness itself panicked: give the early-verdict monitor (main.rs) a moment to
+/// report violations that had already been recorded, then end as inconclusive.
+pub fn harness_failed_exit() -> ! {
+    crate::report::HARNESS_FAILED.store(true, Ordering::SeqCst);
+    std::thread::sleep(std::time::Duration::from_secs(8));
+    std::process::exit(3);
+}
+
 pub fn par_jobs<T: Send, F: Fn(usize) -> T + Sync>(jobs: usize, f: F) -> Vec<T> {
     let threads = num_threads().min(jobs.max(1));
     let next = AtomicUsize::new(0);
@@ -143,7 +151,7 @@ pub fn par_jobs<T: Send, F: Fn(usize) -> T + Sync>(jobs: usize, f: F) -> Vec<T> 
             if let Err(e) = h.join() {
                 // a panic of the harness itself (not of the code under test, which is caught)
                 eprintln!("HARNESS-ERROR worker thread panicked: {}", panic_message(&e));
-                std::process::exit(3);
+                harness_failed_exit();
             }
         }
     });
@@ -160,6 +168,7 @@ pub fn on_big_stack<T: Send, F: FnOnce() -> T + Send>(f: F) -> T {
             .join()
             .unwrap_or_else(|e| {
                 eprintln!("HARNESS-ERROR thread panicked: {}", panic_message(&e));
+                harness_failed_exit();
                 std::process::exit(3);
             })
     })
